@@ -231,6 +231,35 @@ func hostPorts(c *runlib.Ctx, sh *enum.Sharder) {
 	}
 }
 
+// ipSpellings: hosts that are IP addresses in accepted but non-canonical
+// spellings (upper case, leading zeros, zeros not compressed, the hexadecimal
+// form of an embedded IPv4 address, upper-case zones) and near misses.  A
+// host is text: it must come back as it went in, not re-spelled.
+func ipSpellings(c *runlib.Ctx, sh *enum.Sharder) {
+	one := func(h string, p int) {
+		if strings.ContainsAny(h, "[]") || !sh.Mine() {
+			return
+		}
+
+		checkHostPort(c, h, uint16(p))
+		c.NontrivialKey(fmt.Sprintf("hp\x00%s\x00%d", h, p))
+		c.SampleEvery(50_021, func() any { return map[string]any{"family": "hostport-ip-spellings", "host": enum.Hex(h), "port": p} })
+	}
+
+	for _, h := range []string{"2001:DB8::1", "2001:db8:0:0:0:0:0:1", "2001:0db8::0001", "0:0:0:0:0:0:0:1", "::0001", "0::1", "::ffff:102:304",
+		"::FFFF:1.2.3.4", "0:0:0:0:0:ffff:1.2.3.4", "FE80::1%eth0", "fe80::1%ETH0", "fe80:0::1%1", "ABCD:EF01:2345:6789:ABCD:EF01:2345:6789",
+		"1:2:3:4:5:6:7::", "::2:3:4:5:6:7:8", "1::0:8", "01.2.3.4", "1.2.3.04", "1.2.3.4.", "0x1.2.3.4", "1.2.3", "::", "0::", "::0", "0::0"} {
+		for _, p := range []int{0, 53, 443, 65535} {
+			one(h, p)
+		}
+	}
+
+	gen.IPCandidates(1, &enum.Sharder{NShards: 1}, func(h string) {
+		one(h, 53)
+		one(strings.ToUpper(h), 65535)
+	})
+}
+
 var prefixSuffixes = []string{"", "/0", "/8", "/32", "/33", "/128", "/129", "/", "/x", "/-1", "/08", "/+8", "/8/8"}
 
 // prefixes enumerates address candidates x suffixes.
@@ -358,6 +387,7 @@ func main() {
 		sh := &enum.Sharder{Shard: c.Shard, NShards: c.NShards}
 		durations(c, sh)
 		hostPorts(c, sh)
+		ipSpellings(c, &enum.Sharder{Shard: c.Shard, NShards: c.NShards})
 		prefixes(c, sh)
 		urls(c)
 	})
